@@ -221,6 +221,22 @@ Proof.
     cbn [run]. rewrite Nat2N.inj_succ, N.pow_succ_r'. destruct b; cbn [N.b2n]; lia.
 Qed.
 
+(* the shape of an LZ77 back-reference in the decoders: the distance is tested
+   against the number of bytes produced so far, then a length check, then the copy;
+   anything else (e.g. a static-dictionary reference) happens on the other arm *)
+Lemma hoare_hist_guard_copy {A} (S : err -> Prop) (Q : A -> Prop) (d l : N) (bound : N -> N)
+      (c : bool) (e : err) (kc : prog A) (kelse : N -> prog A) :
+  0 < d -> (forall h, bound h <= h) -> S e -> hoare S Q kc -> (forall h, hoare S Q (kelse h)) ->
+  hoare S Q (Hist (fun h => if d <=? bound h then assert_p c e ;;; Copy d l kc else kelse h)).
+Proof.
+  intros Hd Hb He Hk Hel s Hw. cbn [run].
+  destruct (d <=? bound (a_len s)) eqn:E.
+  - rewrite run_bind. unfold assert_p. destruct c; cbn [run]; [|exact He].
+    apply N.leb_le in E. specialize (Hb (a_len s)).
+    apply hoare_copy; auto. lia.
+  - apply Hel. exact Hw.
+Qed.
+
 (* elimination forms, then make the predicates opaque for unification: an
    [apply only_yield] must not succeed on arbitrary goals by unfolding. *)
 Lemma only_elim {A} (S : err -> Prop) (p : prog A) s :
